@@ -66,8 +66,8 @@ PROPS = {
     "C06": dict(
         title="Lifecycle gating and monotonicity",
         lean=["LP.Props.C06gates", "LP.Props.C06stage", "LP.Props.C06run"],
-        profiles=[("timeline", ALL_VARIANTS), ("life", ALL_VARIANTS)],
-        R={"st": (ANY, STAGE_MSGS)},
+        profiles=[("timeline", ALL_VARIANTS), ("life", ALL_VARIANTS), ("deploy", ALL_VARIANTS)],
+        R={"st": [(ANY, STAGE_MSGS), ({"deploy"}, None)]},
         D={"cfg": ANY},
     ),
     "C07": dict(
@@ -126,8 +126,8 @@ PROPS = {
     "C14": dict(
         title="NFT draw and fees",
         lean=["LP.Props.C14"],
-        profiles=[("life", ["nft", "nftGuar"]), ("chunks", ["nft", "nftGuar"])],
-        R={"st": ({"confirmNft", "selectNft", "secondary", "setNftCost"}, None), "sft": ANY,
+        profiles=[("life", ["nft", "nftGuar"]), ("chunks", ["nft", "nftGuar"]), ("deploy", ["nft", "nftGuar"])],
+        R={"st": ({"deploy", "confirmNft", "selectNft", "secondary", "setNftCost"}, None), "sft": ANY,
            "xf.fee": {"claim", "claimPayment", "blacklist"}, "ret": {"selectNft", "secondary"}},
         D={k: ANY for k in ["payers", "nftw", "cnft", "cost", "avail", "addr.paid", "addr.won", "bal.fee"]},
     ),
@@ -141,15 +141,15 @@ PROPS = {
     "C16": dict(
         title="Locked split",
         lean=["LP.Props.C16"],
-        profiles=[("life", ["locked", "lockedGuar"])],
-        R={"lock": ANY, "xf.lp": {"claim"}},
+        profiles=[("life", ["locked", "lockedGuar"]), ("deploy", ["locked", "lockedGuar"])],
+        R={"lock": ANY, "xf.lp": {"claim"}, "st": ({"deploy"}, None)},
         D={"lockcfg": ANY},
     ),
     "C17": dict(
         title="Sale terms frozen",
         lean=["LP.Props.C17"],
-        profiles=[("timeline", ALL_VARIANTS), ("life", ALL_VARIANTS)],
-        R={"st": ({"setTicketPrice", "setPerTicket", "setNftCost", "setSchedule1", "setSchedule2"}, None)},
+        profiles=[("timeline", ALL_VARIANTS), ("life", ALL_VARIANTS), ("deploy", ALL_VARIANTS)],
+        R={"st": ({"deploy", "setTicketPrice", "setPerTicket", "setNftCost", "setSchedule1", "setSchedule2"}, None)},
         D={"price": ANY, "per": ANY, "cost": ANY, "sched": ANY},
     ),
     "C18": dict(
